@@ -341,6 +341,9 @@ func (y *c18L2Sys) ops() []c18L2Op {
 			return opchildtypes.NewMsgUpdateParams(w.Authority, &p)
 		}, "msg"},
 		{"UpdateOracle(3 voters)", nil, "oracle"},
+		// every pair priced by everyone, under the newest stored timestamp: pairs that have no price yet
+		// are writable, the others are stale — the update is rejected part-way through its write loop
+		{"UpdateOracle(3 voters, all pairs, stale timestamp)", nil, "oracle-stale"},
 		{"RegisterPlan(h,o3,k3)", nil, "plan"},
 		{"NextBlock", nil, "block"},
 	}
@@ -401,6 +404,18 @@ func (y *c18L2Sys) Step(s *c18L2State, l engine.Letter) (*c18L2State, string, *e
 				}
 			}
 			data, _ := y.votes.build(cs, votes, 11, newest+1_000_000_000)
+			r := w.Deliver(ctx, opchildtypes.NewMsgUpdateOracle(world.Addr("executor").String(), 11, data))
+			o, ok = obsOf(r), r.OK()
+		case "oracle-stale":
+			cs := &c15State{ctx: ctx, w: w, set: y.votes.initial, hostH: 10, flagOn: true}
+			votes := []c15Vote{{"hv1", shPriceP}, {"hv2", shPriceP}, {"hv3", shPriceP}}
+			newest := int64(1)
+			for _, p := range cs.prices(ctx) {
+				if p.has && p.ts.UnixNano() > newest {
+					newest = p.ts.UnixNano()
+				}
+			}
+			data, _ := y.votes.build(cs, votes, 11, newest)
 			r := w.Deliver(ctx, opchildtypes.NewMsgUpdateOracle(world.Addr("executor").String(), 11, data))
 			o, ok = obsOf(r), r.OK()
 		case "block":
@@ -504,7 +519,7 @@ func init() {
 			res.Coverage["executions"] = st.execs.Load()
 			res.Coverage["map_order_runs"] = st.permRuns.Load()
 			res.Coverage["map_sites_reached"] = st.sites
-			res.Coverage["alphabet"] = "L1: every ophost message type (C16's alphabet) + time; L2: credited/refunded deposits, withdrawal, AddValidator ×3, RemoveValidator ×3, UpdateParams, UpdateOracle with three voters, RegisterPlan, NextBlock (real End/BeginBlocker)"
+			res.Coverage["alphabet"] = "L1: every ophost message type (C16's alphabet) + time; L2: credited/refunded deposits, withdrawal, AddValidator ×3, RemoveValidator ×3, UpdateParams, UpdateOracle with three voters (a fresh timestamp with partial pair coverage; every pair under the newest stored timestamp, which is rejected part-way), RegisterPlan, NextBlock (real End/BeginBlocker)"
 			res.Coverage["oracle"] = "every transition of every explored state is executed twice on the same node, once on a second independently constructed node loaded with the parent's raw store content, and once per permutation (all n! for n ≤ 4) at every instrumented map-range site it reaches; response bytes, full error text, ordered events, gas, ordered validator updates and the digest of every store must be identical; census: no goroutine, select, channel operation, randomness, environment read or wall-clock use outside telemetry, every map range instrumented"
 			res.Assumptions = []string{"the overlay instruments the map ranges of both OPinit modules and of connect's abci/strategies/aggregator, pkg/math/voteweighted and aggregator packages (the UpdateOracle path); map iteration in other dependencies is exercised only by Go's own per-range randomisation across the ≥3 executions of every transition"}
 			res.Require(len(st.sites) > 0, "no instrumented map range was ever reached")
